@@ -24,7 +24,7 @@ LEVEL_NOTE = 'Trusts the dense numpy joint evolution (vlib/refs/anc.py); environ
 ASSUMPTIONS = [
     "the explicit joint evolution written with dense numpy (vlib/refs/anc.py) is the ground truth",
     "rank-3 tensors with transforms are only generated in the PT-TEMPO convention (interaction diagonal in a rotated Hilbert basis)",
-    "PT-TEMPO inputs are conditioned (D <= 5) and size-coupled as in DESIGN section 4",
+    "PT-TEMPO inputs are conditioned (D <= 3.5) and size-coupled as in DESIGN section 4",
 ]
 TOL = 1e-10
 
